@@ -365,7 +365,7 @@ func (srv *Srv) write(req *SrvReq) {
 		return
 	}
 
-	if !fid.opened || (fid.Type&QTDIR) != 0 || (fid.Omode&3) == OREAD {
+	if !fid.opened || (fid.Type&QTDIR) != 0 || (fid.Omode&3) == OREAD || (fid.Omode&3) == OEXEC {
 		req.RespondError(Ebaduse)
 		return
 	}
